@@ -17,7 +17,9 @@ WitAns == {"valid", "missing", "wronglogkey", "nowitsig", "badwitsig", "corrupte
 \* counts as failed); an implementation that retries delivers with its second PUT. Both are behaviours of this spec - what is never allowed
 \* is a PUT whose body is not the witness' checkpoint (judged on the trace).
 Flaky == {"502then200", "503then200", "504then200", "429then200"}
-DistAns == {"200", "404", "500", "connerr", "redirect302", "redirect307"} \cup Flaky
+\* "slow200": the distributor answers 200, but only after several distribution intervals (well inside the HTTP client's timeout). A pass has no
+\* deadline of its own (Main runs it with the process context), so this is a delivery like any other - and the logs after it still get their turn.
+DistAns == {"200", "404", "500", "connerr", "redirect302", "redirect307", "slow200"} \cup Flaky
 Idx == 1..NLogs
 
 VARIABLES wit,    \* [Idx -> WitAns]   what the witness answers for each log (scenario, never changes)
@@ -31,7 +33,7 @@ vars == <<wit, dist, pos, puts, failed, result>>
 Init == /\ wit \in [Idx -> WitAns] /\ dist \in [Idx -> DistAns]
         /\ pos = 1 /\ puts = {} /\ failed = {} /\ result = "running"
 
-Delivered(d) == d \in {"200", "redirect307"}     \* a 307 keeps method and body; the target answers 200
+Delivered(d) == d \in {"200", "redirect307", "slow200"}     \* a 307 keeps method and body; the target answers 200
 
 Process ==
     /\ pos <= NLogs /\ result = "running"
